@@ -1419,7 +1419,9 @@ def main(tier_, replay=None):
     coverage = {
         'evaluations': runs,
         'distinct_nontrivial': len(sigs_nt),
-        'rule': 'one evaluation = one seeded schedule (first thread, <=3 forced pre-emptions at athlib source lines, exit order) '
+        'rule': 'one evaluation = one schedule (first thread, <=3 forced pre-emptions at athlib source lines - one schedule in nine: inside a line, '
+                'before its n-th bytecode instruction -, exit order; seeded, plus every single pre-emption of every 60th/24th scenario) followed by 2-7 '
+                'sequential epilogue calls, '
                 'of one seeded scenario (variant first/warm/cachefull x 2-3 threads x 1-2 public calls each), run with real '
                 'threads under the baton scheduler and compared call by call with the outcomes of all call-atomic sequential '
                 'orders of the same tree; distinct = distinct (scenario, ordered switch list) signatures; non-trivial = at '
@@ -1454,6 +1456,8 @@ def main(tier_, replay=None):
         'violating_runs': cnt.get('violating_runs', 0),
         'violation_classes': sorted(seen),
         'regression_corpus': {'replayed': corpus['replayed'], 'reproduced': corpus['reproduced']},
+        'determinism': det,
+        'epilogue_calls_made_after_the_threads': cnt.get('epilogue_calls', 0),
         'all_runs_digest': '%016x' % rd,
         'lock_seam_objects_rebound': cnt.get('lock_seam_rebound', 0),
         'components': {'real': ['athlib (working tree)', 'jsonschema', 'json', 'decimal', 'CPython threads'],
